@@ -392,6 +392,8 @@ def obligations(tier):
         Ob("surface", surface(1 if q else 2), covers=COVERS, split=4, note="sample_surface on a planar 2-triangle surface with symbolic coordinates"),
         Ob("bezier-curve", bezier_curve([1, 2, 3] if q else [1, 2, 3, 4, 5]), covers=COVERS, split=3, note="de Casteljau = Bernstein, end points, range check"),
         Ob("bezier-patch", bezier_patch(2, 2) if q else bezier_patch(3, 3), covers=COVERS, note="patch = tensor product, corners"),
+        Ob("bezier-patch-wide", bezier_patch(2, 3), covers=COVERS, note="2x3 control net (more columns than rows)"),
+        Ob("bezier-patch-tall", bezier_patch(3, 2), covers=COVERS, note="3x2 control net (more rows than columns)"),
         Ob("exports", exports_e1, covers=COVERS, split=2, note="as_surface / as_polyline on small unequal sample counts"),
         Ob("e2-as_surface", c14.e2_kernel("as_surface", E2), covers=COVERS, note="kernelsmt: as_surface indices for all sample counts"),
         Ob("e2-as_polyline", c14.e2_kernel("as_polyline", E2), covers=COVERS, note="kernelsmt: as_polyline indices for all sample counts"),
